@@ -13,7 +13,7 @@ D6 the *configured* timeout is the one applied: every housekeeping pass refreshe
 """
 from ..absint import AbsInt, Entry, Num
 from ..ctx import full_slice_element, is_awaited_result_of, CONN, bool_branches, is_call, is_field, is_iter_next, result_arms, sname
-from ..expr import show, walk
+from ..expr import show, strip_old, walk
 from ..pathcond import calls_to, field_stores
 from . import C01
 
@@ -302,6 +302,33 @@ def d7_backoff_does_not_accumulate(ctx):
                    "%s" % ws, key="D7:failure-count-writers")
 
 
+def d2c_handshake_replies_do_not_stamp_liveness(ctx):
+    """A torn-down link is retried when is_timed_out says so, and for a disconnected link that is `never heard | heard too long
+    ago`: a REG_NGP / REG2 / REG_ERR reply must therefore not refresh last_received (only REG3 and ordinary traffic do), or a
+    half-finished handshake postpones the next attempt by a whole timeout."""
+    f = ctx.fn(PUP, "D2")
+    if not f:
+        return
+    pa = ctx.pa(f)
+    b = pa.bdd
+    reg = [a for a in pa.bdd.vars if a[0] == "is" and a[2] == "None" and is_call(strip_old(a[1]), name_contains="process_registration_packet")]
+    r3 = [a for a in pa.bdd.vars if a[0] == "is" and a[2] == "Reg3" and any(is_call(x, name_contains="process_registration_packet") for x in walk(a[1]))]
+    if len(reg) != 1 or len(r3) != 1:
+        ctx.chk.missing("D2", "process_uplink_packet: registration event tests", "%d / %d" % (len(reg), len(r3)))
+        return
+    allowed = b.OR(pa.atom(reg[0]), pa.atom(r3[0]))
+    n = 0
+    for (bb, si, s) in field_stores(f, CONN, "last_received"):
+        v = pa.fa.val_rvalue(s["rv"], (bb, si))
+        if not (v[0] == "agg" and str(v[2]).endswith("::Some")):
+            continue
+        n += 1
+        pc = pa.pc_at(bb, si)
+        ctx.chk.ob("D2", "the liveness clock is stamped only by REG3 or by a datagram that is not a handshake reply", pa.entails(pc, allowed), "PC = %s" % pa.show(pc, 3)[:300],
+                   key="D2:handshake-replies-do-not-stamp", loc=s.get("loc"))
+    ctx.chk.floor("D2", "last_received := Some(..) stores in process_uplink_packet", n, 1)
+
+
 def d2b_connected_links_have_a_receive_stamp(ctx):
     """Detection rests on it: a connected link is timed out iff it has a receive stamp older than the timeout (D2), so every
     `connected := true` must come with `last_received := Some(..)` and every `last_received := None` with a disconnect."""
@@ -309,7 +336,7 @@ def d2b_connected_links_have_a_receive_stamp(ctx):
     C10.connected_implies_received(ctx, "D2")
 
 
-RULES = [d2b_connected_links_have_a_receive_stamp, d7_backoff_does_not_accumulate, d1_who_tears_down, d2_liveness_predicate, d3_retry_spacing, d4_clean_rejoin, d5_survivors, d6_configured_timeout_applied]
+RULES = [d2b_connected_links_have_a_receive_stamp, d2c_handshake_replies_do_not_stamp_liveness, d7_backoff_does_not_accumulate, d1_who_tears_down, d2_liveness_predicate, d3_retry_spacing, d4_clean_rejoin, d5_survivors, d6_configured_timeout_applied]
 
 
 def run(ctx):
